@@ -15,6 +15,7 @@ import (
 	"os"
 	"os/exec"
 	"path/filepath"
+	"strconv"
 	"strings"
 	"sync"
 	"syscall"
@@ -153,6 +154,41 @@ func runCell(base string, c Cell) *Result {
 
 // runCells runs cells 16 at a time.
 func runCells(base string, cells []Cell) []*Result {
+	// debugging aid: VERIF_CELL_FILTER=<substring> VERIF_CELL_REPEAT=<n> runs only the matching cells, n times
+	// each, and prints every failing result (the check's verdict is then meaningless)
+	if f := os.Getenv("VERIF_CELL_FILTER"); f != "" {
+		n, _ := strconv.Atoi(os.Getenv("VERIF_CELL_REPEAT"))
+		if n < 1 {
+			n = 1
+		}
+		var sel []Cell
+		for _, c := range cells {
+			if strings.Contains(c.Name, f) {
+				for i := 0; i < n; i++ {
+					sel = append(sel, c)
+				}
+			}
+		}
+		res := runCellsN(base, sel)
+		for i, r := range res {
+			bad := r.HelperErr != "" || r.Panic != ""
+			for _, o := range r.Ops {
+				if o.Err != "" {
+					bad = true
+				}
+			}
+			if bad {
+				b, _ := json.Marshal(r)
+				fmt.Printf("STRESS-FAIL %s: %s\n", sel[i].Name, b)
+			}
+		}
+		fmt.Printf("STRESS %d cells\n", len(sel))
+		os.Exit(0)
+	}
+	return runCellsN(base, cells)
+}
+
+func runCellsN(base string, cells []Cell) []*Result {
 	out := make([]*Result, len(cells))
 	sem := make(chan struct{}, 16)
 	var wg sync.WaitGroup
